@@ -123,6 +123,11 @@ func c01Cells(tier string) []Cell {
 						r.Init, r.FailC, r.Callout = init+"A", "00", false
 						r.Threads = [][]GOp{{{Key: 0, Reuse: true}, {Key: 1, Reuse: true}}, {{Key: 1}}}
 						cells = append(cells, Cell{ID: r.ID()})
+
+						// ... and next to a forced refresh of the FIRST key, whose background build may still be running under a
+						// lock that was registered when the buffer still held that key
+						r.Threads = [][]GOp{{{Key: 0, Reuse: true}, {Key: 1, Reuse: true}}, {{Key: 0, Skip: true}}}
+						cells = append(cells, Cell{ID: r.ID()})
 					}
 				}
 			}
